@@ -45,6 +45,7 @@ class Ctx:
     def __init__(self, timeout_ms=60000):
         self.solver = z3.SolverFor('QF_ABV')
         self.solver.set('timeout', timeout_ms)
+        self.timeout_ms = timeout_ms
         self.stack = []  # entries: dict(kind='b', val=bool, alt=bool) | dict(kind='e', expr, tried=[..], cur)
         self.pos = 0
         self.nframes = 0
@@ -71,17 +72,43 @@ class Ctx:
             self.nunknown += 1
         return r
 
-    def model(self, *extra):
+    def model(self, *extra, quick=False):
+        """decide pc AND extra.  Two engines: a FRESH solver (z3's one-shot preprocessing + bit-blasting pipeline,
+        10-500x faster than the incremental core on large arithmetic obligations) and the incremental solver
+        (much faster on the array-heavy obligations of the translation checks).  `self.prefer` ('fresh' | 'incr')
+        selects which goes first; quick=True gives up early (the caller then splits the obligation)."""
         self.nsolve += 1
         t = time.time()
-        s = self.solver
-        s.push()
-        for x in extra:
-            s.add(x)
-        r = s.check()
-        m = s.model() if r == z3.sat else None
-        s.pop()
+
+        def fresh(timeout):
+            s = z3.SolverFor('QF_ABV')
+            s.set('timeout', timeout)
+            s.add(self.solver.assertions())
+            for x in extra:
+                s.add(x)
+            r_ = s.check()
+            return r_, (s.model() if r_ == z3.sat else None)
+
+        def incr():
+            s2 = self.solver
+            s2.push()
+            for x in extra:
+                s2.add(x)
+            r_ = s2.check()
+            m_ = s2.model() if r_ == z3.sat else None
+            s2.pop()
+            return r_, m_
+        if getattr(self, 'prefer', 'fresh') == 'incr':
+            r, m = incr()
+            if r == z3.unknown and not quick:
+                r, m = fresh(self.timeout_ms)
+        else:
+            r, m = fresh(min(5000, self.timeout_ms) if quick else self.timeout_ms)
+            if r == z3.unknown and not quick:
+                r, m = incr()
         self.tsolve += time.time() - t
+        if r == z3.unknown and not quick:
+            self.nunknown += 1
         return r, m
 
     def pc(self):
